@@ -21,6 +21,7 @@ pub mod closures;
 pub mod collections;
 pub mod cwstd;
 pub mod cwutils;
+pub mod extras;
 pub mod iters;
 pub mod loops;
 pub mod options;
@@ -46,6 +47,7 @@ pub fn modules() -> Vec<(&'static str, &'static [(&'static str, CaseFn)])> {
         ("cwstd", cwstd::CASES),
         ("cwutils", cwutils::CASES),
         ("storage", storage::CASES),
+        ("extras", extras::CASES),
     ]
 }
 
